@@ -7,7 +7,7 @@ CONSTANTS
   Plays <- NoPlay
   Forces <- NoForce
   MaxInv = 1
-  MaxTrim = 1
+  MaxTrim = 0
   MaxFail = 1
   Age <- AllOld
   FixAwait = TRUE
